@@ -337,6 +337,57 @@ pub fn encodings_for(pd: &PlanDesc, tier: Tier) -> Vec<(String, Encoding)> {
         e.comp = vec![Comp::Lz4];
         out.push(("service-format".into(), e));
     }
+    // two degrees of freedom at a time: for every pair of families, the first and the last
+    // encoding of each are merged field by field (a pair that touches the same field is skipped)
+    {
+        let basev = serde_json::to_value(&base).expect("encoding to json");
+        let mut reps: Vec<(String, serde_json::Value)> = Vec::new();
+        let mut seen: std::collections::BTreeMap<String, (usize, usize)> = std::collections::BTreeMap::new();
+        for (i, (dim, _)) in out.iter().enumerate() {
+            let family = dim.split(':').next().unwrap_or(dim).to_owned();
+            let e = seen.entry(family).or_insert((i, i));
+            e.1 = i;
+        }
+        for (family, (first, last)) in &seen {
+            if family == "base" {
+                continue;
+            }
+            reps.push((family.clone(), serde_json::to_value(&out[*first].1).unwrap()));
+            if last != first {
+                reps.push((family.clone(), serde_json::to_value(&out[*last].1).unwrap()));
+            }
+        }
+        let mut pairs = Vec::new();
+        for a in 0..reps.len() {
+            for b in (a + 1)..reps.len() {
+                if reps[a].0 == reps[b].0 {
+                    continue;
+                }
+                let (ea, eb) = (reps[a].1.as_object().unwrap(), reps[b].1.as_object().unwrap());
+                let mut merged = basev.as_object().unwrap().clone();
+                let mut clash = false;
+                for (k, bv) in basev.as_object().unwrap() {
+                    let (da, db) = (ea.get(k) != Some(bv), eb.get(k) != Some(bv));
+                    if da && db && ea.get(k) != eb.get(k) {
+                        clash = true;
+                    }
+                    if da {
+                        merged.insert(k.clone(), ea[k].clone());
+                    }
+                    if db {
+                        merged.insert(k.clone(), eb[k].clone());
+                    }
+                }
+                if clash {
+                    continue;
+                }
+                if let Ok(e) = serde_json::from_value::<Encoding>(serde_json::Value::Object(merged)) {
+                    pairs.push((format!("pair:{}*{}", reps[a].0, reps[b].0), e));
+                }
+            }
+        }
+        out.extend(pairs);
+    }
     // combinations on the smallest DOMs
     if tier == Tier::Thorough && n <= 2 {
         for k in 0..nperm {
